@@ -327,6 +327,32 @@ def run(prog, rep, tier):
                '<EncryptionLayerInternal as %s>::%s does not call %s (anchor lost)' % (tr, m, want),
                bs[0].loc() if bs else '?')
 
+    # ---------------- R03.6 a chunk load that fails leaves no stale plaintext behind: the cache is emptied before the chunk is read
+    # (the chunk counter is advanced by the caller before the load; a fast path that trusts "counter == target and cache not empty" would otherwise
+    #  serve the previous chunk's bytes at the new chunk's positions after a failed load)
+    for fn in ('load_in_cache', 'load_in_cache_unauthenticated'):
+        lb = one_body(prog, rep, 'R03.6', 'mla', exact='layers::encrypt::EncryptionLayerInternal::' + fn)
+        if lb is None:
+            continue
+        rep.fn(lb)
+        rte = [b for b in lb.calls() if b.term.cmethod == 'read_to_end' and b.term.ctrait == 'std::io::Read']
+        inval = []
+        for b in lb.calls():
+            t = b.term
+            if t.cmethod in ('clear', 'take', 'replace', 'truncate', 'set_position', 'get_mut') and t.args and t.args[0].place is not None:
+                o = origins(lb, [t.args[0].place[0]], through_calls=True)
+                if any(f[-1] == 'chunk_cache' for f in o.fields) and t.cmethod in ('clear', 'take', 'replace'):
+                    if t.cmethod != 'take' or cnorm(t).startswith('std::mem::take'):
+                        inval.append(b.idx)
+        for bl in lb.blocks:
+            for i, st in enumerate(bl.stmts):
+                if st.kind == 'assign' and place_fields(st.place)[-1:] == ['chunk_cache'] and not bl.cleanup:
+                    inval.append(bl.idx)
+        ok = len(rte) == 1 and any(lb.dominates(x, rte[0].idx) and x != rte[0].idx for x in inval)
+        rep.ob('R03.6', ok, 'R03.6|%s|cache-emptied-before-chunk-read' % lb.nkey, 'chunk_cache is emptied (clear / mem::take / reassignment) before the next chunk is read' if ok else
+               'the previous chunk stays in chunk_cache while the next one is read: if that load fails, the cache and the chunk counter disagree and a later seek within '
+               '"the current chunk" serves stale plaintext', lb.loc(rte[0].idx) if rte else lb.loc())
+
     # ---------------- R03.5 a failed tag comparison is an error for the caller of the normal reader (never skipped)
     from .c04 import wrong_tag_swallows
     fs_read = find_bodies(prog, 'mla', adt='layers::encrypt::EncryptionLayerFailSafeReader', name='read', trait='std::io::Read')
